@@ -15,6 +15,7 @@ import XmlDiffModel.Model.TextFormat
 import XmlDiffModel.Model.OldFormat
 import XmlDiffModel.Model.Api
 import XmlDiffModel.Model.Blank
+import XmlDiffModel.Model.Placeholder
 import Std.Data.HashMap
 open XmlDiffModel
 
@@ -372,6 +373,58 @@ def doBlank (args : List String) : String :=
     | none => "bad-op"
   | _ => "bad-op"
 
+def diffNs : String := "http://namespaces.shoobx.com/diff"
+
+/-- ids of the three element objects `PlaceholderMaker.__init__` creates -/
+def diffElemId (name : String) : Nat :=
+  if name == "insert" then 900001 else if name == "delete" then 900002 else 900003
+
+def diffElem (name : String) : Tree :=
+  .node (diffElemId name) { kind := .elem, tag := ("{" ++ diffNs ++ "}" ++ name).toList, attrs := [],
+                            text := none, tail := none } []
+
+def diffElems : List (Nat × Tree) :=
+  ["insert", "delete", "replace"].map fun n => (diffElemId n, diffElem n)
+
+/-- `PlaceholderMaker.__init__`: close then open placeholder for insert, delete, replace. -/
+def phInit (textTags fmtTags : List Str) : PhSt :=
+  let st0 : PhSt := { table := [], counter := phStart, heap := [], textTags := textTags, formattingTags := fmtTags }
+  ["insert", "delete", "replace"].foldl (fun st n =>
+    let (c, st1) := getPlaceholder st (diffElem n) .close none
+    let (_, st2) := getPlaceholder st1 (diffElem n) .open (some c)
+    st2) st0
+
+def decStrList (s : String) : List Str := ((s.splitOn "|").filter (· ≠ "")).map decStr!
+
+def showRole : Role → String
+  | .open => "0" | .close => "1" | .single => "2"
+
+def showUErr : UErr → String
+  | .popEmpty => "popEmpty" | .noElement => "noElement" | .fuel => "fuel"
+
+/-- ph <texttags> <fmttags> <tree> [<tree> ...]: do_tree on every tree with one maker, then
+undo_tree on every result.  Answer: done trees ; table ; undone trees -/
+def doPh (args : List String) : String :=
+  match args with
+  | tt :: ft :: trees =>
+    match trees.mapM decTree with
+    | none => "bad-op"
+    | some ts =>
+      let st0 := phInit (decStrList tt) (decStrList ft)
+      let (done, st) := ts.foldl (fun (acc : List Tree × PhSt) t =>
+        let (t', st') := doTree t acc.2
+        (acc.1 ++ [t'], st')) ([], st0)
+      let table := " ".intercalate (st.table.map fun e =>
+        let c := match e.closePh with | some x => toString x | none => "n"
+        s!"{e.ph}:{showRole e.role}:{c}")
+      let keys := " # ".intercalate (st.table.map fun e => encTree e.key)
+      let undone := done.map fun t => match undoTree st diffElems t with
+        | .ok u => encTree u
+        | .error e => "err:" ++ showUErr e
+      "ok " ++ " # ".intercalate (done.map encTree) ++ " ; " ++ table ++ " ; " ++ keys ++ " ; " ++
+        " # ".intercalate undone
+  | _ => "bad-op"
+
 def doOrders (args : List String) : String :=
   match args with
   | [ts] => match decTree ts with
@@ -395,6 +448,7 @@ def handle (line : String) : String :=
   | "fmt" :: args => doFmt args
   | "old" :: args => doOld args
   | "plan" :: args => doPlan args
+  | "ph" :: args => doPh args
   | "blank" :: args => doBlank args
   | "parse" :: args => doParse args
   | "json" :: args => doJson args
